@@ -3,7 +3,8 @@
     Only statements, each closed by [exact] of a lemma of [Service/Proofs*.v], with
     [Print Assumptions] beneath. *)
 From Irismod Require Import Service.Model Service.Proofs Service.ProofsHist Service.ProofsEscrow
-  Service.ProofsSched Service.ProofsBatch Service.ProofsLiab Service.ProofsTally Service.ProofsLive.
+  Service.ProofsSched Service.ProofsBatch Service.ProofsLiab Service.ProofsTally Service.ProofsLive
+  Service.ProofsModule Service.ProofsFresh Service.ProofsCallback Service.ProofsSchedule Service.ProofsModuleHist Service.ProofsOutcome.
 
 (** Over EVERY history (any list of steps: messages of any kind and content, block ends,
     rate changes, transfers, module calls) from any initial height, time and ledger: the
@@ -13,29 +14,43 @@ From Irismod Require Import Service.Model Service.Proofs Service.ProofsHist Serv
     expired a second time). *)
 Theorem request_single_outcome :
   forall c steps h0 t0 l0,
+    c_msvc c < 0 ->
     let s := run c (init h0 t0 l0) steps in
     NoDup (map fst (g_out s))
     /\ (forall rid q, In rid (map fst (g_out s)) -> get rid (reqs s) = Some q -> q_active q = false).
 Proof. exact single_outcome_lemma. Qed.
 Print Assumptions request_single_outcome.
 
-(** Over EVERY history with fresh context ids: a stored request is never active after its
+(** The same on chains WITH a module-served service (whose call creates and answers a request
+    inside the message), for histories whose context-creating transactions have distinct hashes;
+    proved with batch numbers instead of request heights (ProofsOutcome.v, invariant [OInv]). *)
+Theorem request_single_outcome_with_module_services :
+  forall c steps h0 t0 l0,
+    NoDup (create_txhs steps) ->
+    let s := run c (init h0 t0 l0) steps in
+    NoDup (map fst (g_out s))
+    /\ (forall rid q, In rid (map fst (g_out s)) -> get rid (reqs s) = Some q -> q_active q = false).
+Proof. exact single_outcome_m_lemma. Qed.
+Print Assumptions request_single_outcome_with_module_services.
+
+(** Over EVERY history whose context-creating transactions have distinct hashes (with or without a
+    module-served service): a stored request is never active after its
     expiration height (the end blocker of that height has expired it: its context's expiry entry
     was due exactly then), and a stored request that is no longer active has its outcome in the
     log.  With [request_single_outcome]: every stored request whose expiration height has passed
     has EXACTLY one outcome (answered or expired), and before that at most one. *)
 Theorem request_outcome_by_expiry :
   forall c steps h0 t0 l0,
-    fresh_history c (init h0 t0 l0) steps ->
+    NoDup (create_txhs steps) ->
     let s := run c (init h0 t0 l0) steps in
     forall rid q, get rid (reqs s) = Some q ->
       (q_active q = true -> height s <= q_exp q)
       /\ (q_active q = false -> In rid (map fst (g_out s))).
-Proof. exact outcome_by_expiry_lemma. Qed.
+Proof. exact outcome_by_expiry_m_lemma. Qed.
 Print Assumptions request_outcome_by_expiry.
 
-(** Over EVERY history in which context ids are fresh ([fresh_history]: no context id is issued
-    while a context with that id is still stored): (1) every active request belongs to the
+(** Over EVERY history whose context-creating transactions have distinct hashes (with or without a
+    module-served service): (1) every active request belongs to the
     RUNNING, CURRENT batch of a context that is still stored — so requests of a completed batch,
     of an earlier batch, or of a removed (one-shot, killed, exhausted) context are never active
     and can never be answered; (2) a running batch never has more active requests than
@@ -44,14 +59,14 @@ Print Assumptions request_outcome_by_expiry.
     [nact id m] = number of active requests of context [id]. *)
 Theorem active_requests_belong_to_the_running_batch :
   forall c steps h0 t0 l0,
-    fresh_history c (init h0 t0 l0) steps ->
+    NoDup (create_txhs steps) ->
     let s := run c (init h0 t0 l0) steps in
     (forall rid q, get rid (reqs s) = Some q -> q_active q = true ->
        exists x, get (rid_ctx rid) (ctxs s) = Some x /\ x_brun x = true /\ rid_b rid = x_batch x)
     /\ (forall id x, get id (ctxs s) = Some x -> x_brun x = true ->
           nact id (reqs s) <= x_breq x - x_bresp x /\ has id (expmark s) = true)
     /\ (forall h id x, In (h, id) (newq s) -> get id (ctxs s) = Some x -> x_brun x = false /\ get id (newmark s) = Some h).
-Proof. exact active_requests_lemma. Qed.
+Proof. exact active_requests_m_lemma. Qed.
 Print Assumptions active_requests_belong_to_the_running_batch.
 
 (** A response succeeds only for a stored, still active request and only from the provider it
@@ -109,6 +124,79 @@ Theorem oneshot_removed_repeated_rescheduled :
 Proof. exact batch_expiry_lemma. Qed.
 Print Assumptions oneshot_removed_repeated_rescheduled.
 
+(** [fresh_history] — the hypothesis of the history theorems above — follows from: the hashes carried by
+    the context-creating steps of the history (calls, module creations) are pairwise distinct.  A
+    context id is (hash of the creating transaction, per-block index), so this is "distinct
+    transactions have distinct hashes" (SHA-256 collision-freeness), as in C19.  No restriction on
+    module-served services. *)
+Theorem fresh_history_from_distinct_hashes :
+  forall c steps h0 t0 l0, NoDup (create_txhs steps) -> fresh_history c (init h0 t0 l0) steps.
+Proof. exact fresh_history_from_distinct_hashes_lemma. Qed.
+Print Assumptions fresh_history_from_distinct_hashes.
+
+(** The response callback of a module-owned context (the log [cblog] is a ghost of the model: one
+    entry per invocation; the harness records the real invocations and compares them step by step).
+    Over EVERY history of a chain whose context-creating transactions have pairwise distinct
+    hashes: the callback fired at most once for every (context, batch); it has not fired for a batch
+    that is still running; and it HAS fired — exactly once — for the current batch of every stored
+    module-owned context whose batch is closed (completed by responses, or expired). *)
+Theorem callback_exactly_once_per_batch :
+  forall c steps h0 t0 l0,
+    NoDup (create_txhs steps) ->
+    let s := run c (init h0 t0 l0) steps in
+    NoDup (resp_keys (cblog s))
+    /\ (forall id x, get id (ctxs s) = Some x -> x_brun x = true -> ~ In (id, x_batch x) (resp_keys (cblog s)))
+    /\ (forall id x, get id (ctxs s) = Some x -> x_mod x = true -> x_brun x = false -> 1 <= x_batch x ->
+          In (id, x_batch x) (resp_keys (cblog s))).
+Proof. exact callback_exactly_once_per_batch_m_lemma. Qed.
+Print Assumptions callback_exactly_once_per_batch.
+
+(** Every invocation appends one entry for the CURRENT batch of the stored context, carrying the
+    number of outputs of that batch; its [err = nil] flag is 1 iff that number reaches the batch's
+    response threshold. *)
+Theorem callback_outputs_iff_threshold :
+  forall s id x, get id (ctxs s) = Some x ->
+    exists e, cblog (callback s id) = cblog s ++ [e] /\ is_resp e = true /\ cb_id e = id /\ cb_batch e = x_batch x
+      /\ cb_n e = n_outputs s id (x_batch x) /\ (cb_ok e = 1 <-> x_bthr x <= cb_n e) /\ (cb_ok e = 0 \/ cb_ok e = 1).
+Proof. exact callback_outputs_iff_threshold_lemma. Qed.
+Print Assumptions callback_outputs_iff_threshold.
+
+(** The service module completes a batch (invokes the response callback) only while that batch is
+    running — the hypothesis [run_wfb] of the oracle model (Oracle/Proofs.v), for responses and for
+    the expiry handler.  [BatchInv] holds in every reachable state ([active_requests_...]). *)
+Theorem respond_completes_only_a_running_batch :
+  forall c s rid prov kind s',
+    BatchInv s -> respond c s rid prov kind = Okk s' -> cblog s' <> cblog s ->
+    exists x, get (rid_ctx rid) (ctxs s) = Some x /\ x_brun x = true /\ x_mod x = true
+              /\ exists x', get (rid_ctx rid) (ctxs s') = Some x' /\ x_brun x' = false /\ x_batch x' = x_batch x.
+Proof. exact respond_completes_only_running_batch. Qed.
+Print Assumptions respond_completes_only_a_running_batch.
+
+Theorem expiry_completes_only_a_running_batch :
+  forall c s id x,
+    get id (ctxs s) = Some x -> x_brun x = false -> cblog (expired_batch_handler c s id) = cblog s.
+Proof. exact expiry_completes_only_running_batch. Qed.
+Print Assumptions expiry_completes_only_a_running_batch.
+
+(** The schedule over a whole history.  Take any reachable state in which the next batch of context
+    [id] is scheduled at height [H] (its height marker; the expiry handler sets it to
+    (expiry height - timeout + frequency) = start(n) + frequency, [oneshot_removed_repeated_rescheduled],
+    the expiry height being start(n) + timeout, [batch_starts_only_when_running]).  Whatever happens
+    afterwards — pause, start, messages and batches of other contexts, block ends — every LATER batch
+    of [id] starts at height >= H, and the marker is still [H] until the end blocker of height [H]
+    has run.  So batch n+1 starts exactly at start(n) + frequency if the context is running then, and
+    never earlier; pause / start can neither advance nor duplicate it. *)
+Theorem no_batch_before_its_scheduled_height :
+  forall c pre post h0 t0 l0 id H,
+    NoDup (create_txhs (pre ++ post)) ->
+    let s := run c (init h0 t0 l0) pre in
+    let s' := run c (init h0 t0 l0) (pre ++ post) in
+    get id (newmark s) = Some H ->
+    (forall e, In e (g_batches s') -> ~ In e (g_batches s) -> b_ctx e = id -> H <= b_h e)
+    /\ (get id (newmark s') = Some H \/ H <= height s').
+Proof. exact no_batch_before_its_scheduled_height_m_lemma. Qed.
+Print Assumptions no_batch_before_its_scheduled_height.
+
 (** Starting a paused context enqueues a new batch (at the current height) only when NEITHER the
     expiry of a batch NOR a next batch is registered for it; otherwise the new-batch queue and its
     height markers are exactly as before — a batch already scheduled is neither moved nor
@@ -152,7 +240,7 @@ Print Assumptions module_context_control.
     late answer to the expired one and a duplicate answer to the answered one are rejected;
     the one-shot context is removed; a repeated context (frequency 3, total 2) starts its
     batches at heights 1 and 4 and is then removed; a stranger's pause is rejected *)
-Definition ex_cfg := mkCfg 50000000000000000 300000000000000000 6 2 100 4 false 2.
+Definition ex_cfg := mkCfg 50000000000000000 300000000000000000 6 2 100 4 false 2 (-1) 4.
 Definition ex_l0 : ledger := [((0, 0), 1000000); ((5, 0), 1000000)].
 Definition ex_hist : list step :=
   [ Tx 11 (MDefine 0 0 true);
@@ -191,8 +279,8 @@ Example c08_schedule_nonvacuous :
 Proof. vm_compute. repeat split; try reflexivity. eexists. reflexivity. Qed.
 
 Example c08_fresh_history_satisfiable :
-  fresh_history ex_cfg (init 1 1000 ex_l0) ex_hist /\ fresh_history ex_cfg (init 1 1000 ex_l0) ex_hist2.
-Proof. split; apply fresh_historyb_ok; vm_compute; reflexivity. Qed.
+  fresh_history ex_cfg (init 1 1000 ex_l0) ex_hist /\ fresh_history ex_cfg (init 1 1000 ex_l0) ex_hist2 /\ c_msvc ex_cfg < 0.
+Proof. split; [|split]; [apply fresh_historyb_ok; vm_compute; reflexivity|apply fresh_historyb_ok; vm_compute; reflexivity|reflexivity]. Qed.
 
 (** pause -> start in the gap (timeout 3, frequency 10: batch at 1, expiry at 4, pause at 6,
     start at 7): the batches still start at heights 1, 11, 21 and nowhere else *)
@@ -207,3 +295,21 @@ Example c08_gap_nonvacuous :
   g_batches s = [((14, 0), 1, 1); ((14, 0), 2, 11); ((14, 0), 3, 21)] /\ height s = 25
   /\ fresh_history ex_cfg (init 1 1000 ex_l0) ex_hist3.
 Proof. split; [vm_compute; reflexivity|]. split; [vm_compute; reflexivity|]. apply fresh_historyb_ok. vm_compute. reflexivity. Qed.
+
+(** the module-owned context of this history (threshold 1, one provider) completes batch 1 by a
+    response with output: one callback entry, flagged ok; hashes of the creating steps distinct *)
+Definition ex_hist4 : list step :=
+  [ Tx 11 (MDefine 0 0 true);
+    Tx 12 (MBind 0 2 0 1000 (0, 10, [], []) 1 true 0);
+    ModCreate 14 0 [2] 5 100000 3 true 10 (-1) 0 1;
+    EndBlock 5;
+    Tx 15 (MRespond ((14, 0), 1, 1, 0) 2 1);
+    EndBlock 5; EndBlock 5; EndBlock 5 ].
+
+Example c08_callback_nonvacuous :
+  let s := run ex_cfg (init 1 1000 ex_l0) ex_hist4 in
+  cblog s = [(0, (14, 0), 1, 1, 1)] /\ resp_keys (cblog s) = [((14, 0), 1)]
+  /\ NoDup (create_txhs ex_hist4) /\ NoDup (create_txhs ex_hist3)
+  /\ get (14, 0) (newmark s) = Some 11.
+Proof. split; [vm_compute; reflexivity|]. split; [vm_compute; reflexivity|]. split; [vm_compute; repeat constructor; simpl; tauto|].
+  split; [vm_compute; repeat constructor; simpl; tauto|vm_compute; reflexivity]. Qed.
